@@ -94,12 +94,13 @@ def cover(hyps, timeout_ms):
     return ('refuted', 'hypotheses are contradictory') if r == z3.unsat else ('unknown', 'cover undecided')
 
 
-def verify_function(world, contracts, stubs, qual, timeout_ms=QUICK_TIMEOUT_MS, concretise=None, keep_smt=False):
+def verify_function(world, contracts, stubs, qual, timeout_ms=QUICK_TIMEOUT_MS, concretise=None, keep_smt=False,
+                    only_case=None):
     res = FnResult(qual)
     t0 = time.time()
     eng = Engine(world, contracts, stubs)
     try:
-        _run(eng, world, contracts, qual, res, timeout_ms, concretise, keep_smt)
+        _run(eng, world, contracts, qual, res, timeout_ms, concretise, keep_smt, only_case)
     except Unsupported as e:
         res.status = 'unsupported'
         res.reason = str(e)
@@ -118,7 +119,7 @@ def verify_function(world, contracts, stubs, qual, timeout_ms=QUICK_TIMEOUT_MS, 
     return res
 
 
-def _run(eng, world, contracts, qual, res, timeout_ms, concretise, keep_smt):
+def _run(eng, world, contracts, qual, res, timeout_ms, concretise, keep_smt, only_case=None):
     con = contracts.get(qual)
     if con is None:
         raise Unsupported('no contract for %s' % qual)
@@ -171,7 +172,8 @@ def _run(eng, world, contracts, qual, res, timeout_ms, concretise, keep_smt):
         st.assume(it[1] if isinstance(it, tuple) else it)
     cx.st0 = st.fork()
     # vacuity guard: the precondition must be satisfiable
-    eng.obls.append(Obligation('%s/cover:requires-satisfiable' % qual, list(st.pc), z3.BoolVal(False), 'cover'))
+    if only_case in (None, 0):
+        eng.obls.append(Obligation('%s/cover:requires-satisfiable' % qual, list(st.pc), z3.BoolVal(False), 'cover'))
     if any(isinstance(x, (ast.Yield, ast.YieldFrom)) for x in ast.walk(fn)):
         from .values import EMPTY_SEQ
         st.loc['$yield'] = EMPTY_SEQ
@@ -180,7 +182,10 @@ def _run(eng, world, contracts, qual, res, timeout_ms, concretise, keep_smt):
     if con.cases:
         cs = con.cases(cx)
         # exhaustiveness of the case split is itself an obligation
-        eng.oblige(st, '%s/cases-exhaustive' % qual, z3.Or(cs), 'ensures')
+        if only_case in (None, 0):
+            eng.oblige(st, '%s/cases-exhaustive' % qual, z3.Or(cs), 'ensures')
+        if only_case is not None:
+            cs = [cs[only_case]]
         starts = []
         for c_ in cs:
             s_ = st.fork()
@@ -237,7 +242,7 @@ def _run(eng, world, contracts, qual, res, timeout_ms, concretise, keep_smt):
                 for i, g in enumerate(con.frame(cx, f, cx.st0.H(f), s.H(f))):
                     eng.oblige(s, '%s/frame-post:%s#%d[path %d]' % (qual, f, i + 1, npaths), g, 'frame')
     res.paths = npaths
-    if npaths == 0:
+    if npaths == 0 and only_case is None:
         raise Unsupported('no feasible path')
     # ---------------------------------------------------------------- discharge
     covered = False
